@@ -52,6 +52,8 @@ class Toolchain:
         cmd += list(extra)
         e = dict(os.environ)
         e["RUST_BACKTRACE"] = "0"
+        # the optimizing compiler is itself a Dora program: one GC worker instead of 8 spinning ones per process
+        e["DORA_FLAGS"] = "--gc-worker 1"
         if env:
             e.update(env)
         try:
